@@ -50,6 +50,21 @@ PROPS = {
         "level_text": "Failure atomicity proved on the mirrors (a list failing at the k-th patch yields no document; refusal yields no state; degraded update keeps the previous document). Input immutability is partial: decided by runtime snapshots on generated histories and patch lists, since the value model cannot express Go aliasing.",
         "technique": "Coq proof of atomicity + runtime snapshot comparison (partial)",
     },
+    "C05": {
+        "props": "theories/Props/C05.v",
+        "agree": [],
+        "trusted_base": COMMON_TB + [
+            "float64 -> shortest decimal digits is Go's strconv (oracle: digits supplied by the harness from strconv directly); the model owns only the ES6 layout. JSON literals with <= 15 significant digits need no oracle",
+            "inputs are valid I-JSON (no lone surrogates); invalid input is only required to be refused",
+        ],
+        "assumptions": ["numbers outside the exact class are compared through the strconv digit oracle (C05 residue, DESIGN section 4)"],
+        "rule": "random JSON trees (nasty strings: all escape classes, astral and U+E000-FFFF member names, prefix-related names), each spelled 3 ways (member order, whitespace, escape style incl. surrogate-pair escapes, number spelling) plus malformed variants; number stream of boundary and random doubles. distinct_nontrivial = distinct first spellings / doubles.",
+        "clauses": {"1": "insignificant whitespace in output", "2": "output is not JSON", "3": "members not sorted by UTF-16 code units",
+                    "4": "output denotes a different value", "5": "spellings of one value give different outputs", "6": "output differs from the model's canonical form",
+                    "7": "output is not a fixed point", "8": "number not in ES6 shortest form", "9": "finite double refused"},
+        "level_text": "Canonical printer and strict parser in Gallina; theorems: output has sorted unique members, printing is invariant under member permutation, fixed point and value preservation on the printed form (see Props/C05.v for which parts are proved and which are _partial). Correspondence: spellings of generated values and a double stream against MarshalCanonical.",
+        "technique": "Coq proof + differential correspondence (strconv digits as oracle for numbers)",
+    },
     "C09": {
         "props": "theories/Props/C09.v",
         "agree": ["theories/Agree/AgreeFuncs.v"],
